@@ -17,6 +17,7 @@ from typing import Any, Dict, Iterator, List, Optional, Tuple
 import plumpy
 from plumpy import loaders, persistence
 
+from .. import explore
 from ..vloop import VLoop
 
 ID = 'C19'
@@ -377,6 +378,10 @@ def check_history(history: Tuple[str, ...]) -> List[dict]:
     return out
 
 
+def _history_job(history: Tuple[str, ...]) -> List[dict]:
+    return explore.guarded_case({'history': list(history)}, check_history, history)
+
+
 def histories(max_len: int) -> List[Tuple[str, ...]]:
     return [h for n in range(1, max_len + 1) for h in itertools.product(HISTORY_OPS, repeat=n)]
 
@@ -402,7 +407,7 @@ def _work(chunk: List[tuple]) -> Dict[str, Any]:
             if len(set().union(*[set(l) for l in case[0]])) >= 2:
                 res['nontrivial'] += 1
             try:
-                vs = check_case(*case)
+                vs = explore.guarded_case({'levels': case[0], 'future': case[1], 'mode': case[2]}, check_case, *case)
             except Exception as exc:  # noqa: BLE001
                 vs = [{'clause': 'harness-raised', 'features': {'exc': type(exc).__name__}, 'detail': repr(exc),
                        'case': {'levels': case[0], 'future': case[1], 'mode': case[2]}}]
@@ -428,7 +433,7 @@ def run_check(tier: str, seed: int, workers: Any) -> Dict[str, Any]:
     hist = histories(2 if tier == 'quick' else 3)
     # every history in a process of its own: what one history loads must not be visible to the next
     with mp.get_context('fork').Pool(workers or min(16, os.cpu_count() or 1), maxtasksperchild=1) as pool:
-        for vs in pool.imap_unordered(check_history, hist, chunksize=1):
+        for vs in pool.imap_unordered(_history_job, hist, chunksize=1):
             total['n'] += 1
             total['violations'].extend(vs)
     with mp.get_context('fork').Pool(workers or min(16, os.cpu_count() or 1)) as pool:
